@@ -6,12 +6,19 @@ def showPath (p : List Bytes) : String := String.intercalate "/" (p.map hex)
 def showPaths (ps : List (List Bytes)) : String :=
   if ps.isEmpty then "-" else String.intercalate ";" (ps.map showPath)
 
+/-- a C/D record as the sink reads it: the name is the third field of `args.split(None, 2)` (so leading blanks
+    of the name sent are gone; a record without a third field is an invalid request) -/
+def recOf (isDir : Bool) (name : Bytes) : ScpRec :=
+  match split3 ("0644 0 ".toUTF8.toList ++ name) with
+  | some (_, _, nm) => classify isDir nm
+  | none => .bad name
+
 def parseRec (s : String) : Option ScpRec :=
   match s.toList with
   | ['E'] => some .endDir
   | ['T'] => some .time
-  | 'C' :: r => (unhex (String.ofList r)).map (classify false)
-  | 'D' :: r => (unhex (String.ofList r)).map (classify true)
+  | 'C' :: r => (unhex (String.ofList r)).map (recOf false)
+  | 'D' :: r => (unhex (String.ofList r)).map (recOf true)
   | _ => none
 
 /-- parse prefix-notation tree tokens into entries; returns entries and remaining tokens -/
